@@ -330,7 +330,7 @@ def write_ndjson(path, rows):
 
 # ----------------------------------------------------------------------------- trace validation (shared)
 
-_re_bad = re.compile(r'<<"VERIF_BAD", (\d+), \{(.*?)\}>>')
+_re_bad = re.compile(r'<<\s*"VERIF_BAD",\s*(\d+),\s*\{(.*?)\}\s*>>', re.S)  # TLC wraps long tuples over several lines
 
 
 def validate_trace(ck, specdir, module, cfg, trace, name, trace_name="trace.ndjson", timeout=1500, extra_files=None,
